@@ -4,6 +4,7 @@ package martian
 
 import (
 	"errors"
+	"io"
 	"net"
 	"net/http"
 
@@ -38,9 +39,34 @@ type recorder struct {
 	conn       *clientConn
 	hijackedAt int // conn reads+writes+deadlines at the moment of hijack (-1: none)
 	dials      *int
+	errKind    int
 }
 
 var errMod = errors.New("modifier failed")
+
+// timeoutErr is a net.Error that reports a timeout, as a modifier doing network I/O may return.
+type timeoutErr struct{}
+
+func (timeoutErr) Error() string   { return "modifier timed out" }
+func (timeoutErr) Timeout() bool   { return true }
+func (timeoutErr) Temporary() bool { return true }
+
+// modErr is the error a failing modifier returns: which kind is chosen once per run, the first
+// time it is needed. Whatever a modifier's error is, it must not abort the exchange.
+func (m *recorder) modErr() error {
+	if m.errKind == 0 {
+		m.errKind = 1 + vf.Choice("modifier-error-kind", 4)
+	}
+	switch m.errKind {
+	case 2:
+		return io.EOF
+	case 3:
+		return io.ErrClosedPipe
+	case 4:
+		return timeoutErr{}
+	}
+	return errMod
+}
 
 func (m *recorder) rec(req *http.Request) *exchangeRec {
 	for _, r := range m.recs {
@@ -78,7 +104,7 @@ func (m *recorder) ModifyRequest(req *http.Request) error {
 	}
 	switch b {
 	case bError:
-		return errMod
+		return m.modErr()
 	case bSkip:
 		r.reqCtx.SkipRoundTrip()
 	case bHijackReq:
@@ -109,7 +135,7 @@ func (m *recorder) ModifyResponse(res *http.Response) error {
 	}
 	switch b {
 	case bError:
-		return errMod
+		return m.modErr()
 	case bHijackRes:
 		c, _, err := r.resCtx.Session().Hijack()
 		vf.Assert(err == nil && c != nil, "hijack-succeeds")
